@@ -12,18 +12,20 @@ From MV Require Import Base.PyStr Base.Res Exc.ExcDefs Gen.ExcFlow Exc.ExcFlow E
   Exc.CoreModel Exc.CoreProofs.
 Import ListNotations.
 
-(* Bound: the n_sites call sites of raising callees present in the source when the table was
-   regenerated (n_sites is part of the generated file).  Every one of them is out of scope,
-   whitelisted with a justification, or checked: each class of raises(callee) is caught by an
-   enclosing handler or declared to escape the function (to call sites that are checked in turn). *)
-Theorem C01_sites_covered :
-  List.length sites = n_sites /\ forallb site_ok sites = true.
+(* Bound: the n_sites sites present in the source when the table was regenerated (n_sites is part
+   of the generated file): calls of raising callees everywhere, plus - in the transform phase
+   (transforms.py, Parser.parse) - every subscript, list.remove and Element.replace.  Every one
+   is out of scope, whitelisted with a justification, a listed open defect, or checked: each
+   class of raises(callee) is caught by an enclosing handler or declared to escape the function
+   (to call sites that are checked in turn). *)
+Theorem C01_sites_covered_partial :
+  List.length sites = n_sites /\ forallb (fun s => site_ok s || is_open s) sites = true.
 Proof. exact sites_all_ok. Qed.
-Print Assumptions C01_sites_covered.
+Print Assumptions C01_sites_covered_partial.
 
 (* what "checked" means, for any site and without computation *)
 Theorem C01_site_check_sound : forall s es,
-  lookup (s_callee s) raises = Some es -> uncovered s = [] ->
+  lookup (base_key (s_callee s)) raises = Some es -> uncovered s = [] ->
   forall e, In e es ->
   exists h, In h (s_handlers s ++ declared_of (s_file s) (s_func s)) /\ subclass e h = true.
 Proof. exact site_checked_sound. Qed.
@@ -44,14 +46,17 @@ Theorem C01_tables_consistent : declared_ok = true /\ classes_known = true /\ ta
 Proof. exact tables_ok. Qed.
 Print Assumptions C01_tables_consistent.
 
-(* sites listed as open defects (none today) are really uncovered: the list cannot be used to
-   hide a covered site.  Until commit 3eadb40 it held the two urlparse() sites. *)
-Theorem C01_open_sites_are_uncovered :
+(* the full statement "every site is covered" is refuted today by the open sites: a link
+   destination with %00 reaches os.path / os.access as a NUL character (ValueError) in
+   render_link_project / render_link_path / render_link_unknown of the Sphinx renderer; and the
+   list of open sites can only name sites that really lack a handler *)
+Theorem C01_sites_covered_refuted :
+  open_sites <> [] /\
   forall f g c i sig, In (f, g, c, i, sig) open_sites ->
     exists s, In s sites /\ site_key_eqb s f g c i = true /\ site_ok s = false /\
               In "ValueError"%string (uncovered s).
-Proof. exact open_sites_uncovered. Qed.
-Print Assumptions C01_open_sites_are_uncovered.
+Proof. split; [exact open_sites_nonempty | exact open_sites_uncovered]. Qed.
+Print Assumptions C01_sites_covered_refuted.
 
 (* (a) component totality.
    1. update_section_level_state never takes max() of an empty set: for every sequence of
@@ -60,6 +65,9 @@ Print Assumptions C01_open_sites_are_uncovered.
       sub_references): if every call names at least one key of a finite universe U, the
       expansion returns within fuel |U|+1, i.e. the nesting depth is bounded by the number of
       distinct include keys / substitution names. *)
+(* (The third loop of the renderer that could fail to return, compute_unique_slug's
+   "while slug in slugs", is proved terminating in the C10 development (theorem C10_unique_terminates of
+   Props/C10.v, model in coq/Sect); it is cited here, not re-modelled.) *)
 Theorem C01_core_total :
   (forall levels lm, In 0%N lm -> (forall h, In h levels -> (1 <= h)%N) ->
      exists lm', run_headings lm levels = Ok lm' /\ In 0%N lm') /\
